@@ -16,7 +16,7 @@ from ..driver import Check
 from ..models.green import GreenModel
 
 RHS_KINDS = [("smooth", 4), ("impulse", 4), ("zero", 2), ("big", 2), ("tiny", 1), ("checker", 1)]
-VIEW_KINDS = [("plain", 5), ("component", 2), ("padded", 2), ("inplace", 1)]
+VIEW_KINDS = [("plain", 5), ("component", 2), ("padded", 2), ("inplace", 1), ("transposed", 1), ("interleaved", 1)]
 X_RANGES = [1.0, 0.37, 6.283185307179586, 100.0, 1.0e-3, 2.5]
 
 
@@ -47,7 +47,7 @@ class C03(Check):
         ],
         "stub": ["FFTW planning rigor (MEASURE -> ESTIMATE)"],
     }
-    required_probes = ["zero_after_big", "two_solvers_interleaved", "vector_solve", "impulse_at_corner", "inplace", "non_square"]
+    required_probes = ["zero_after_big", "two_solvers_interleaved", "vector_solve", "impulse_at_corner", "inplace", "non_square", "fft_unfriendly_size", "view_transposed", "view_interleaved"]
     tiers = {
         "quick": {"runs": 480, "batch": 6, "timeout": 240},
         "thorough": {"runs": 20000, "batch": 10, "timeout": 600},
@@ -70,7 +70,17 @@ class C03(Check):
         hi = 24 if dim == 2 else 10
         if tier == "thorough" and rng.random() < 0.15:
             hi = 32 if dim == 2 else 12
-        return [rng.randint(2, hi) for _ in range(dim)]
+        shape = [rng.randint(2, hi) for _ in range(dim)]
+        if rng.random() < 0.3:
+            # sizes whose doubled length is not 2/3/5/7-smooth (FFT "fast length" paths), one axis at a
+            # time so that the dense model stays small
+            ax = rng.randrange(dim)
+            shape[ax] = rng.choice([11, 13, 17, 19, 23, 26, 29, 31, 34, 37, 41, 43, 47])
+            cap = 1600 if dim == 2 else 1400
+            while int(np.prod(shape)) > cap:
+                j = max((i for i in range(dim) if i != ax), key=lambda i: shape[i])
+                shape[j] = max(2, shape[j] // 2)
+        return shape
 
     def _draw_rhs(self, rng, shape):
         kind = prng.weighted_choice(rng, RHS_KINDS)
@@ -108,6 +118,9 @@ class C03(Check):
                 "view": prng.weighted_choice(rng, VIEW_KINDS),
                 "rhs": [self._draw_rhs(rng, shape) for _ in range(3 if vec else 1)],
             }
+            if rng.random() < 0.12:
+                # fault: a solve aborted by an invalid argument (wrong dtype / wrong shape of the output or input)
+                ops.append({"solver": s, "kind": "aborted_solve", "how": rng.choice(["out_dtype", "out_shape", "rhs_dtype"]), "view": "plain", "rhs": [self._draw_rhs(rng, shape)]})
             ops.append(op)
             # bias: a zero / tiny rhs right after a huge one exposes any leaked buffer content
             if op["rhs"][0]["kind"] == "big" and rng.random() < 0.7:
@@ -149,6 +162,12 @@ class C03(Check):
         elif kind == "padded":
             carrier = np.full(tuple(n + 3 for n in shape), fill, dtype=arr.dtype)
             v = carrier[tuple(slice(1, 1 + n) for n in shape)]
+        elif kind == "transposed":
+            carrier = np.full(shape[::-1], fill, dtype=arr.dtype)
+            v = carrier.T  # Fortran-ordered view: non-unit innermost stride
+        elif kind == "interleaved":
+            carrier = np.full((*shape, 2), fill, dtype=arr.dtype)
+            v = carrier[..., slot % 2]
         else:
             carrier = np.full(shape, fill, dtype=arr.dtype)
             v = carrier
@@ -181,6 +200,8 @@ class C03(Check):
                 res.probe("non_square")
             if any(n % 2 for n in shape):
                 res.probe("odd_size")
+            if any(n in (11, 13, 17, 19, 23, 26, 29, 31, 34, 37, 41, 43, 47) for n in shape):
+                res.probe("fft_unfriendly_size")
         last_kind = {}
         last_solver = None
         n_solves = {}
@@ -189,6 +210,20 @@ class C03(Check):
             s = op["solver"] % len(solvers)
             solver, model = solvers[s], models[s]
             shape = model.shape
+            if op["kind"] == "aborted_solve":
+                f = self._make_rhs(op["rhs"][0], shape, real_t)
+                other_t = np.float64 if real_t == np.float32 else np.float32
+                how = op.get("how", "out_dtype")
+                rhs_b = f.astype(other_t) if how == "rhs_dtype" else f
+                out_b = np.zeros(shape, dtype=other_t) if how == "out_dtype" else np.zeros(tuple(n + 1 for n in shape) if how == "out_shape" else shape, dtype=real_t)
+                try:
+                    solver.solve(solution_field=out_b, rhs_field=rhs_b)
+                    res.probe("invalid_argument_accepted")
+                except Exception as e:  # noqa: BLE001
+                    res.fault("solve_aborted_by_invalid_argument")
+                    res.log.event("aborted", how=how, err=type(e).__name__)
+                last_kind[s] = "aborted:" + op["rhs"][0]["kind"]
+                continue
             vec = op["kind"] == "vsolve" and dim == 3
             ncomp = 3 if vec else 1
             specs = (op["rhs"] * 3)[:ncomp]
@@ -255,6 +290,12 @@ class C03(Check):
         res.nontrivial = nonzero and any(v >= 2 for v in n_solves.values())
 
     # ------------------------------------------------------------ shrinking
+    def repair(self, program):
+        ns = len(program["solvers"])
+        for o in program["ops"]:
+            o["solver"] = o["solver"] % ns
+        return program
+
     def simplify(self, program):
         import copy
 
@@ -283,6 +324,8 @@ class C03(Check):
                 c = copy.deepcopy(program)
                 c["ops"][oi]["view"] = "plain"
                 yield c
+            if o["kind"] == "aborted_solve":
+                continue
             if o["kind"] == "vsolve":
                 c = copy.deepcopy(program)
                 c["ops"][oi]["kind"] = "solve"
